@@ -138,6 +138,16 @@ def run(ctx, B):
                 if not ok:
                     ctx.violation("%s|RadRate|%s|Z=%d" % (cfg, g, Z), "RadRate(%d,%s_LINE) = %r err=%s, expected %r" % (Z, g, v, err, e),
                                   dict(cfg=cfg, calls=[dict(fn="RadRate", args=[Z, mac[g + "_LINE"]], expect=dict(type="value", value=e, rtol=1e-12) if e else dict(type="error"))]))
+        # the same group queries WITHOUT an error slot: the value (0 where the call fails) must be the one returned with a slot - a failure that is only
+        # recognised through the caller's slot turns into a number when there is none
+        gl = np.array([mac[g_ + "_LINE"] for g_ in ("KA", "KB", "LA", "LB")] + [mac[d + "_LINE"] for d in DOUBLETS] + [mac[g_ + "_LINE"] for g_ in ("KO", "KP") if g_ + "_LINE" in mac])
+        Zn, Ln = np.repeat(Zs, len(gl)), np.tile(gl, len(Zs))
+        for fn in ("RadRate", "LineEnergy"):
+            a = X.call(fn, Zn, Ln); b = X.call(fn, Zn, Ln, mode=xrl.M_NULL); ctx.add(evaluations=2 * len(Zn))
+            for q in np.nonzero(a["v0"].view(np.uint64) != b["v0"].view(np.uint64))[0][:40]:
+                ctx.violation("%s|%s|no-error-slot-differs|Z=%d|line=%d" % (cfg, fn, int(Zn[q]), int(Ln[q])), "%s(%d,%d) returns %r with an error slot (error=%s) and %r without one" % (
+                    fn, int(Zn[q]), int(Ln[q]), float(a["v0"][q]), bool(a["flags"][q] & F_ERR), float(b["v0"][q])),
+                    dict(cfg=cfg, calls=[dict(fn=fn, args=[int(Zn[q]), int(Ln[q])], expect=dict(type="noslot-same"))]))
         ctx.add(nontrivial=nt)
         X.close()
     ctx.cov["rule"] = ("complete: Z in [-3,125] x 13 group macros for LineEnergy, Z in 1..120 x {KA,KB,LA,LB} for RadRate, both configurations; members decided "
